@@ -113,6 +113,13 @@ func (o *objectGoMapReflect) _put(key reflect.Value, val Value, throw bool) bool
 			if !ok {
 				return false
 			}
+			if o.fieldsValue.IsNil() {
+				if !o.fieldsValue.CanSet() {
+					o.val.runtime.typeErrorResult(throw, "Cannot assign to a nil Go map")
+					return false
+				}
+				o.fieldsValue.Set(reflect.MakeMap(o.fieldsValue.Type()))
+			}
 			o.fieldsValue.SetMapIndex(key, v)
 		} else {
 			o.val.runtime.typeErrorResult(throw, "Cannot set property %v, object is not extensible", key)
